@@ -81,6 +81,12 @@ def run_query(text, limit_s=30):
 
     old = signal.signal(signal.SIGALRM, on_alarm)
     signal.setitimer(signal.ITIMER_REAL, limit_s)
+    # under shadows every frame of the code under test carries a few shadow frames: give them headroom so
+    # that the interpreter's recursion limit is reached (if at all) by the real code's own depth only in
+    # the native run, which is the one that decides a replay
+    old_limit = sys.getrecursionlimit()
+    if isinstance(text, sstr.SStr):
+        sys.setrecursionlimit(60000)
     try:
         try:
             Q2.query("name", text, T0, T0 + timedelta(hours=1), ds)
@@ -109,6 +115,7 @@ def run_query(text, limit_s=30):
             # arguments that passed name / arity / top-level type resolution: outside the property
             return "outside", site
     finally:
+        sys.setrecursionlimit(old_limit)
         signal.setitimer(signal.ITIMER_REAL, 0)
         signal.signal(signal.SIGALRM, old)
 
